@@ -42,6 +42,10 @@ fn plaintext(r: &mut Rng, max: usize) -> Vec<u8> {
     }
 }
 
+fn regular_plain(byte: u8, period: usize, len: usize) -> Vec<u8> {
+    (0..len).map(|i| byte.wrapping_add((i % period.max(1)) as u8)).collect()
+}
+
 pub fn gen_case(r: &mut Rng) -> FCase {
     let nf = 1 + r.usize_below(3);
     let mut features = vec![];
@@ -309,6 +313,17 @@ pub fn run(cfg: &RunCfg) -> (PropMeta, ShardOut, Map<String, Value>) {
                     witness: json!({"kind":"stream","dict":robj_to_json(&RObj::Dict(c.dict.clone())),"encoded":hex(&c.encoded),"plain":hex(&c.plain),"features":c.features}),
                 });
             }
+            if i == 0 {
+                // very long, very regular content (blank scans, masks): deflate reaches its maximum ratio of about
+                // 1030:1 here, and the round trip has to hold for it like for anything else
+                let (byte, period, len) = (r.u8(), 1 + r.usize_below(4), (1usize << 20) + r.usize_below(3 << 20));
+                let p = regular_plain(byte, period, len);
+                out.evaluations += 1;
+                out.count("compress_roundtrips_megabyte_regular");
+                if let Some((sig, what)) = check_compress(&p) {
+                    out.finding(Finding { signature: format!("C09/{}/megabyte-regular", sig), what, witness: json!({"kind":"compress-regular","byte":byte,"period":period,"len":len}) });
+                }
+            }
             if i % 4 == 0 {
                 let p = plaintext(&mut r, 3000);
                 out.evaluations += 1;
@@ -424,7 +439,7 @@ pub fn run(cfg: &RunCfg) -> (PropMeta, ShardOut, Map<String, Value>) {
     });
     let meta = PropMeta {
         level: "exploration",
-        rule: "random plaintexts encoded by the reference encoders through every chain of 1..3 filters over {FlateDecode (stored/fixed/mixed blocks), LZWDecode (EarlyChange 0/1), ASCII85Decode (z, white-space)} with PNG predictors 10..15 (row filters none/sub/up/avg/paeth/mixed) x Colors 1..4 x BitsPerComponent {8,16} x Columns 1..64, DecodeParms as dictionary or as array parallel to Filter with null holes; lopdf's decompressed_content/get_plain_content/decompress must return the plaintext and maintain Length; compress/decompress/set_content/set_plain_content and Document::compress/decompress round trips. Exhaustive: 2^24 Paeth triples, all Sub/Up/Avg byte pairs through png::decode_row; all 1- and 2-byte final ASCII85 groups (3-byte: every 37th in quick, all 2^24 in thorough); z groups and the 0xFFFFFFFF group. distinct = distinct (dictionary, encoded bytes).".into(),
+        rule: "random plaintexts encoded by the reference encoders through every chain of 1..3 filters over {FlateDecode (stored/fixed/mixed blocks), LZWDecode (EarlyChange 0/1), ASCII85Decode (z, white-space)} with PNG predictors 10..15 (row filters none/sub/up/avg/paeth/mixed) x Colors 1..4 x BitsPerComponent {8,16} x Columns 1..64, DecodeParms as dictionary or as array parallel to Filter with null holes; lopdf's decompressed_content/get_plain_content/decompress must return the plaintext and maintain Length; compress/decompress/set_content/set_plain_content and Document::compress/decompress round trips, also on 1-4 MB of constant or short-period content (maximum deflate ratio) and on already filtered streams. Exhaustive: 2^24 Paeth triples, all Sub/Up/Avg byte pairs through png::decode_row; all 1- and 2-byte final ASCII85 groups (3-byte: every 37th in quick, all 2^24 in thorough); z groups and the 0xFFFFFFFF group. distinct = distinct (dictionary, encoded bytes).".into(),
         assumptions: vec!["reference encoders/decoders were cross-checked against zlib and base64.a85 during development and self-test at setup (ISO LZW example, zlib streams from real zlib)".into()],
         exhaustive: false,
         min_distinct: 1000,
@@ -444,6 +459,11 @@ pub fn replay(w: &Value) -> Vec<Finding> {
             };
             let c = FCase { plain: unhex(w["plain"].as_str().unwrap_or("")), dict, encoded: unhex(w["encoded"].as_str().unwrap_or("")), features: vec![] };
             check_case(&c).map(|(s, what)| Finding { signature: format!("C09/{}", s), what, witness: w.clone() }).into_iter().collect()
+        }
+        Some("compress-regular") => {
+            let g = |kk: &str| w[kk].as_u64().unwrap_or(1) as usize;
+            let p = regular_plain(g("byte") as u8, g("period"), g("len"));
+            check_compress(&p).map(|(s, what)| Finding { signature: format!("C09/{}/megabyte-regular", s), what, witness: w.clone() }).into_iter().collect()
         }
         Some("row") => {
             let g = |kk: &str, i: usize| w[kk][i].as_u64().unwrap_or(0) as u8;
